@@ -96,6 +96,7 @@ Proof.
   destruct (_ =? lA)%N eqn:EA.
   { intros H. apply bind_raise in H as [H|(n & _ & H)]; [apply attsiz_nat_exn in H; subst; be|].
     destruct v; try (injection H as <-; be).
+    destruct (negb _); [injection H as <-; be|].
     apply arr_enc_exn in H as [-> | [-> | ->]]; be. }
   (* no other letter is in ATTTYPE *)
   exfalso. unfold atttype in Ea. cbn [assoc_N] in Ea.
